@@ -100,6 +100,10 @@ fn definitions(rng: &mut Rng, extra: usize) -> Vec<Vec<u8>> {
             }
         }
     }
+    // digits and underscores inside the upper-case (short-form) part or the lower-case tail
+    for d in [&b"P2Pmode"[..], b"CH4Level", b"MY_Node", b"A1B", b"IQ2rate3", b"T_1", b"SLOT_Cfg12"] {
+        defs.push(d.to_vec());
+    }
     for d in [&b"MINimum"[..], b"MAXimum", b"DEFault", b"UP", b"DOWN", b"INFinity", b"NINFinity", b"NAN", b"ONCE", b"L125", b"ASCii2", b"X"] {
         defs.push(d.to_vec());
     }
